@@ -367,6 +367,38 @@ CLAUSES = {
         _a("RollInit", c="B"),
         _a("Step", task="sync_B_with_parent_A"),
         _a("RollActivate", c="B"), _a("Settle")]},
+    # C03 "parent removed" for a CA that has children itself (and those have
+    # children): the class goes with everything issued under it, the
+    # children find nothing on offer at their next synchronisation and drop
+    # their own class (theirs in turn), everything is withdrawn; the parent
+    # is added again, the classes come back under new names level by level
+    "parent-removed-with-children": {"actions": [
+        _a("AddCa", c="B", p="A", res=["p1", "p2", "a1"]), _a("Settle"),
+        _a("AddCa", c="C", p="B", res=["p1", "p2"]), _a("Settle"),
+        _a("RoaAdd", c="C", r=["p1", "a1"]),
+        _a("RoaAdd", c="B", r=["p2", "a1"]), _a("Settle"),
+        _a("RemoveParent", c="B", p="A"), _a("Settle"),
+        _a("AddParent", c="B", p="A", res=["p1", "p2", "a1"]), _a("Settle"),
+        _a("Settle")]},
+    # ... in the middle of the child's key roll, with a suspended grandchild;
+    # and once more right after the CA's own key activation
+    "parent-removed-deep-roll-suspended": {"actions": [
+        _a("AddCa", c="B", p="A", res=["p1", "p2", "a1"]), _a("Settle"),
+        _a("AddCa", c="C", p="B", res=["p1", "p2"]), _a("Settle"),
+        _a("AddCa", c="D", p="C", res=["p1"]), _a("Settle"),
+        _a("RoaAdd", c="D", r=["p1", "a1"]),
+        _a("RoaAdd", c="C", r=["p2", "a1"]),
+        _a("RoaAdd", c="B", r=["p2", "a2"]), _a("Settle"),
+        _a("ChildSuspend", c="D", p="C"),
+        _a("RollInit", c="C"), _a("Settle"),
+        _a("RemoveParent", c="B", p="A"),
+        _a("Step", task="sync_repo_B"),
+        _a("Step", task="sync_C_with_parent_B"),
+        _a("Settle"),
+        _a("AddParent", c="B", p="A", res=["p1", "p2", "a1"]), _a("Settle"),
+        _a("Settle"),
+        _a("RollInit", c="B"), _a("Settle"), _a("RollActivate", c="B"),
+        _a("RemoveParent", c="B", p="A"), _a("Settle")]},
     # C04: the child rolls while its parent rolls
     "roll-parent-and-child": {"actions": [
         _a("AddCa", c="B", p="A", res=["p1", "p2"]), _a("Settle"),
@@ -485,7 +517,7 @@ def generate(chk, themes, num, depth, seed, theme_nums=None):
             # the target length: keep one behaviour per simulated trace by
             # cutting all of them at the same point)
             # (deeper hierarchies need longer behaviours)
-            cut = {"foreign2": 46}.get(theme, depth)
+            cut = {"foreign2": 46, "deep": 46}.get(theme, depth)
             acts = b["actions"][:cut - 6] + [{"a": "Settle"}]
             if theme == "tduring":
                 rnd = random.Random(seed * 7919 + len(acts) + i)
